@@ -125,6 +125,17 @@ def run(ctx):
         extra_cases.append({"set": ps, "desc": "foreign-packets-first:" + v.rsplit("/", 1)[1], "fs": fs, "vline": L.line_verify("p2", "mem", ps.index, 1, fs)})
         fs = dict(ps.created); fs[v] = ps.created[v] + other.created[other.volumes[0]] + ps.created[v]
         extra_cases.append({"set": ps, "desc": "foreign-packets-between:" + v.rsplit("/", 1)[1], "fs": fs, "vline": L.line_verify("p2", "mem", ps.index, 1, fs)})
+    # the same recovery blocks twice beside the index (a backup copy of a volume; two volumes concatenated into one more
+    # file): a block is usable ONCE however many copies of its packet exist
+    for k, ps in enumerate(withvols[:(8 if ctx.tier != "thorough" else 40)]):
+        v = ps.volumes[k % len(ps.volumes)]
+        base_ = ps.index[:-len(".par2")]
+        fs = dict(ps.created); fs[base_ + ".vol-backup copy.par2"] = ps.created[v]
+        extra_cases.append({"set": ps, "desc": "volume-copied:" + v.rsplit("/", 1)[1], "fs": fs, "vline": L.line_verify("p2", "mem", ps.index, 1, fs)})
+        fs = dict(ps.created); fs[base_ + ".all.par2"] = b"".join(ps.created[x] for x in ps.volumes)
+        victim = list(ps.paths.values())[k % len(ps.paths)]
+        del fs[victim]
+        extra_cases.append({"set": ps, "desc": "volumes-concatenated-copy+delete", "fs": fs, "vline": L.line_verify("p2", "mem", ps.index, 1, fs)})
     allc = [c for c in cases] + extra_cases
     vi, vm = P.run_both(ctx, vh, model, [c["vline"] for c in allc])
     dist = {"pattern": {}, "clean_reports": 0, "clean_but_damaged": 0, "all_slices_usable_but_files_wrong": 0}
@@ -186,7 +197,7 @@ def run(ctx):
             ctx.sample({"pattern": c["desc"], "verify": a.split(" trace=")[0]})
     return ctx.finish(
         "proof",
-        rule="archive states from the C01 generator (all damage kinds, pairs, dropped recovery files) plus, for every file of every set, the patterns that leave every slice findable while the file is wrong (bytes inserted at the front, garbage appended, trailing zero bytes lost or added, two files swapped) and the intact state; non-trivial = some protected file differs from its original",
+        rule="archive states from the C01 generator (all damage kinds, pairs, dropped recovery files) plus, for every file of every set, the patterns that leave every slice findable while the file is wrong (bytes inserted at the front, garbage appended, trailing zero bytes lost or added, two files swapped), the intact state, recovery files with foreign packets first/between, and copies of recovery files beside the originals (a block counts once); non-trivial = some protected file differs from its original",
         extra={"input_distribution": dist,
                "predicate": "needed=false => all files byte-identical; usable <= slices present anywhere in surviving files (content search); usable >= slices of undamaged files; usable+unusable = total; usable blocks = blocks in surviving recovery files; possible <=> unusable <= usable blocks",
                "compared": "all counts, needed/possible, I/O trace vs the extracted model (whose scan is proved sound and complete in Props/C16.v)"})
